@@ -154,12 +154,16 @@ package ociauth
 //@   bytes bv
 //@   requires wf(s) && yield0 != nil
 //@   yield-requires(x) yielded() > 0 ==> lessRS(yieldedAt(yielded() - 1), x)
+//@   yield-requires(x) holds(s, x)
 //@   loop 0 invariant 0 - 1 <= rangeindex && rangeindex < len(s.repositories) && !stopped()
+//@   loop 0 invariant len(others) <= len(s.others) && (forall a int :: 0 <= a && a < len(others) ==> others[a] == s.others[len(s.others) - len(others) + a])
 //@   loop 0 invariant forall a, b int :: 0 <= a && a < b && b < len(others) ==> lessRS(others[a], others[b])
 //@   loop 0 invariant forall a int :: 0 <= a && a < len(others) ==> !others[a].isKnown()
 //@   loop 0 invariant yielded() > 0 && len(others) > 0 ==> lessRS(yieldedAt(yielded() - 1), others[0])
 //@   loop 0 invariant yielded() > 0 ==> rangeindex >= 0 && atMostRepo(yieldedAt(yielded() - 1), s.repositories[rangeindex])
 //@   loop 1 invariant !stopped() && repo != "" && 0 <= i && i < len(s.repositories) && repo == s.repositories[i]
+//@   loop 1 invariant len(others) <= len(s.others) && (forall a int :: 0 <= a && a < len(others) ==> others[a] == s.others[len(s.others) - len(others) + a])
+//@   loop 1 invariant acts == s.actions[i]
 //@   loop 1 invariant forall a, b int :: 0 <= a && a < b && b < len(others) ==> lessRS(others[a], others[b])
 //@   loop 1 invariant forall a int :: 0 <= a && a < len(others) ==> !others[a].isKnown()
 //@   loop 1 invariant yielded() > 0 && len(others) > 0 ==> lessRS(yieldedAt(yielded() - 1), others[0])
@@ -167,11 +171,13 @@ package ociauth
 //@     (yieldedAt(yielded() - 1).ResourceType == TypeRepository && (yieldedAt(yielded() - 1).Resource < repo ||
 //@       (yieldedAt(yielded() - 1).Resource == repo && (k >= 3 || (k == 2 && yieldedAt(yielded() - 1).Action < ActionPush)))))
 //@   loop 2 invariant 0 - 1 <= rangeindex#1 && rangeindex#1 < len(others) && !stopped()
+//@   loop 2 invariant len(others) <= len(s.others) && (forall a int :: 0 <= a && a < len(others) ==> others[a] == s.others[len(s.others) - len(others) + a])
 //@   loop 2 invariant forall a, b int :: 0 <= a && a < b && b < len(others) ==> lessRS(others[a], others[b])
 //@   loop 2 invariant yielded() > 0 && rangeindex#1 + 1 < len(others) ==> lessRS(yieldedAt(yielded() - 1), others[rangeindex#1 + 1])
 //@ func (Scope).Iter$1$1
 //@   inline
 //@   loop 0 invariant !stopped()
+//@   loop 0 invariant len(others) <= len(s.others) && (forall a int :: 0 <= a && a < len(others) ==> others[a] == s.others[len(s.others) - len(others) + a])
 //@   loop 0 invariant forall a, b int :: 0 <= a && a < b && b < len(others) ==> lessRS(others[a], others[b])
 //@   loop 0 invariant forall a int :: 0 <= a && a < len(others) ==> !others[a].isKnown()
 //@   loop 0 invariant yielded() > 0 && len(others) > 0 ==> lessRS(yieldedAt(yielded() - 1), others[0])
